@@ -5,6 +5,22 @@ V = os.path.dirname(os.path.dirname(os.path.abspath(__file__)))
 
 CHECKS = {
  # id: (technique, level text, level note, design ref)
+ "C01": ("TLC: MC_Cpu + complete data-operation tables (Gen_Alu) and boundary cases for all 500 opcodes (Gen_Instr) exported by TLC and executed through both engines on the same one-instruction block; random straight-line blocks compared at the engine level and as whole emulator steps in both builds, the block traces validated against Machine.tla by TLC",
+         "The verdict is the pair equality the statement demands (registers, status modulo Core's interpretation, ordered bus writes, memory and device registers); the operand space of every register form is covered completely, pointer forms over region-boundary lattices, blocks by random generation. The specification (TLC) supplies the cases and the diagnosis of which engine deviates.",
+         "Trusted: TLC, the bus-recorder hook, the harness pair comparison. 'Host process intact' is observed (worker survival, registers of the harness after each call), not modelled; silent corruption that changes nothing compared is out of reach. Self-modifying bank switches inside a block are C03's business (random blocks use a ROM-only cartridge).",
+         "DESIGN.md 5/C01"),
+ "C02": ("same machinery as C01 projected to machine cycles: every defined opcode x all 16 flag states as one-instruction blocks in both engines (TLC-generated), complete operand tables, sums over random blocks at the engine level and as delivered device clocks in both builds",
+         "The cycle table is finite: opcode x flag state decides the count, and that product is executed completely in both engines; a mismatch in cycles only is attributed here, any other mismatch to C01.",
+         "Trusted: as C01. The comparison with SM83.tla's cycle column is diagnosis only (a common deviation of both engines is C06's business).",
+         "DESIGN.md 5/C02"),
+ "C05": ("TLC: algebraic theorems about SM83Alu (BCD, inverses, compositions), MC_Cpu, and the complete data-operation tables exported by TLC (Gen_Alu) swept through interpreter::run_next_op over the whole operand domain of every data opcode; boundary cases (Gen_Instr) for memory forms",
+         "The oracle is the specification evaluated by TLC, itself cross-examined by theorems that do not mention the code; the domain stated in the quantifier is enumerated completely (135 M states per run), so this is exhaustive rather than sampled.",
+         "Trusted: TLC, SM83Alu.tla as the reading of the instruction set, the harness table lookup. ADD HL,rr and ADD SP,e expectations are compositions of the exported byte adder (theorems AddHLBytewise / AddSPLowByte checked by TLC on grids); all 2^32 ADD HL pairs are not enumerated.",
+         "DESIGN.md 5/C05"),
+ "C06": ("TLC: MC_Cpu (length, cycle, stack and status laws over all programs of bounded length) + decode table for all 512 encodings exported by TLC (Gen_Decode) against decoder/is_block_end/run_next_op in all 16 flag states + TLC-generated control-flow and stack cases over PC/SP lattices and all JR displacements + straddling-fetch programs validated against Machine.tla",
+         "Length, timing and block-end are functions of the encoding and the flags: that product is executed completely; targets and stack transfers are checked on generated boundary cases with expected ordered bus writes.",
+         "Trusted: TLC, SM83.tla's decode structure (written from the octal structure of the encoding, not from the match table). Undefined opcodes: refusal by panic or by lock-up both accepted.",
+         "DESIGN.md 5/C06"),
  "C07": ("TLC model checking of MC_Irq over the complete IF x IE x IME x run-state x SP-class x PC-class space + the same space exported by TLC (Gen_Irq) and replayed through Core::handle_interrupt / Core::update",
          "Dispatch is a finite function of a finite state: the six clauses of the statement are checked by TLC on every point of the space and every point is executed on the code (552 960 cases), so the binding is exhaustive over the stated quantifier.",
          "Trusted: TLC, the harness field mapping (cmd_irq.rs, world.rs poke). Stack-pointer classes stand for regions; pushes onto other device registers are covered by the machine traces of C04/C08.",
